@@ -63,7 +63,7 @@ type msgSpec struct {
 	BodySize int
 	BodySeed int64 // behaviour of the underlying body
 	ReadSeed int64 // behaviour of the consumer
-	StopMode int   // 0 until error, 1 early, 2 past EOF
+	StopMode int   // 0 until error/EOF, 1 early, 2 reads on 1-2 times after an error or EOF
 	StampID  uint32
 }
 
@@ -176,7 +176,11 @@ type srcBody struct {
 	maxChunk int
 	zeroProb int // 1/zeroProb reads return (0, nil); 0 = never
 	eofWith  bool
-	failAt   int // -1: never
+	failAt   int   // offset at which a read fails; -1: never
+	failWith bool  // the failing read also returns the bytes up to failAt: (n>0, err) in one call
+	failOnce bool  // transient: after the failing read the body goes on (reads after an error)
+	failErr  error // errBoom or io.ErrUnexpectedEOF
+	failed   bool
 	log      []rd
 	closed   int32
 	closeErr error
@@ -203,8 +207,14 @@ func newSrcBody(m *msgSpec) *srcBody {
 		b.zeroProb = 2 + rng.Intn(6)
 	}
 	b.eofWith = rng.Intn(2) == 0
-	if rng.Intn(8) == 0 {
+	if rng.Intn(4) == 0 {
 		b.failAt = rng.Intn(m.BodySize + 1)
+		b.failWith = rng.Intn(3) != 0
+		b.failOnce = rng.Intn(3) == 0
+		b.failErr = errBoom
+		if rng.Intn(2) == 0 {
+			b.failErr = io.ErrUnexpectedEOF // what net/http's chunked reader returns for a body cut mid-chunk
+		}
 	}
 	if rng.Intn(8) == 0 {
 		b.closeErr = errClose
@@ -214,8 +224,10 @@ func newSrcBody(m *msgSpec) *srcBody {
 
 func (b *srcBody) Read(p []byte) (n int, err error) {
 	defer func() { b.log = append(b.log, rd{n, err}) }()
-	if b.failAt >= 0 && b.off >= b.failAt {
-		return 0, errBoom
+	armed := b.failAt >= 0 && !(b.failOnce && b.failed)
+	if armed && b.off >= b.failAt {
+		b.failed = true
+		return 0, b.failErr
 	}
 	if b.off == len(b.data) {
 		return 0, io.EOF
@@ -233,12 +245,19 @@ func (b *srcBody) Read(p []byte) (n int, err error) {
 	if c := 1 + b.rng.Intn(b.maxChunk); n > c {
 		n = c
 	}
-	if b.failAt >= 0 && b.off+n > b.failAt {
+	if armed && b.off+n >= b.failAt {
 		n = b.failAt - b.off
+		if b.failWith {
+			// the bytes up to the failure point arrive together with the error
+			copy(p, b.data[b.off:b.off+n])
+			b.off += n
+			b.failed = true
+			return n, b.failErr
+		}
 	}
 	copy(p, b.data[b.off:b.off+n])
 	b.off += n
-	if b.off == len(b.data) && b.eofWith && b.failAt < 0 {
+	if b.off == len(b.data) && b.eofWith && !(b.failAt >= 0 && !(b.failOnce && b.failed)) {
 		return n, io.EOF
 	}
 	return n, nil
@@ -297,6 +316,11 @@ func consume(m *msgSpec, body io.ReadCloser) *consumed {
 			break
 		}
 		if err != nil {
+			// some consumers read on after a failed read
+			if extra > 0 {
+				extra--
+				continue
+			}
 			break
 		}
 	}
@@ -698,6 +722,11 @@ func judgeOutput(r *vh.Run, c interface{}, driver, writer string, K int, out []b
 				bucketSize(len(res.cons.got)), bucketN(nd), how, lastTerm))
 			r.Count("messages_judged", 1)
 			r.Count("body_bytes_compared", int64(len(res.cons.got)))
+			kinds := readKinds(res.cons.log)
+			r.Class(fmt.Sprintf("%s-reads|%s|kinds=%s|lastterm=%v", driver, typeName(m.Type), strings.Join(kinds, "+"), lastTerm))
+			for _, k := range kinds {
+				r.Count("read_outcome_"+k, 1)
+			}
 		}
 	}
 	for _, k := range order {
@@ -706,6 +735,51 @@ func judgeOutput(r *vh.Run, c interface{}, driver, writer string, K int, out []b
 				map[string]interface{}{"frames": describeFrames(groups[k])})
 		}
 	}
+}
+
+// readKinds lists the kinds of Read outcomes the consumer observed through the
+// wrapper: data = (n>0,nil), zero = (0,nil), data+eof = (n>0,EOF), eof = (0,EOF),
+// data+err = (n>0, non-EOF error), err = (0, non-EOF error), after-eof / after-err =
+// a read issued after an earlier read had returned EOF / a non-EOF error.
+func readKinds(l []rd) []string {
+	set := map[string]bool{}
+	sawEOF, sawErr := false, false
+	for _, x := range l {
+		if sawEOF {
+			set["after-eof"] = true
+		}
+		if sawErr {
+			set["after-err"] = true
+		}
+		switch {
+		case x.err == nil && x.n > 0:
+			set["data"] = true
+		case x.err == nil:
+			set["zero"] = true
+		case x.err == io.EOF && x.n > 0:
+			set["data+eof"] = true
+			sawEOF = true
+		case x.err == io.EOF:
+			set["eof"] = true
+			sawEOF = true
+		case x.n > 0:
+			set["data+err"] = true
+			sawErr = true
+		default:
+			set["err"] = true
+			sawErr = true
+		}
+	}
+	var out []string
+	for _, k := range []string{"data", "zero", "data+eof", "eof", "data+err", "err", "after-eof", "after-err"} {
+		if set[k] {
+			out = append(out, k)
+		}
+	}
+	if len(out) == 0 {
+		out = []string{"none"}
+	}
+	return out
 }
 
 func bucketK(k int) string {
